@@ -111,8 +111,9 @@ impl PrcBitTable {
     #[inline]
     pub fn merge(&self, other: &Self, offset: usize) -> Self {
         let offset = simd::u32x16::splat(offset as u32);
+        // re-clamp so that `minimizer` can keep packing bits and index in 32 bits.
         Self {
-            p_to_bits: self.p_to_bits + other.p_to_bits - offset,
+            p_to_bits: (self.p_to_bits + other.p_to_bits - offset).simd_min(MAX_P_TO_BITS_VEC),
         }
     }
 }
